@@ -55,6 +55,21 @@ def dStep (d : DSt) (op : List String) : DSt × String :=
   | ["X", k, _st] => match k.toNat? with
     | some k => let (s, ok) := childExit d.s k; ({ d with s := s }, if ok then "x" else "nochild")
     | none => (d, "bad-op")
+  | ["TX", t, k] => match t.toNat?, k.toNat? with
+    | some t, some k =>
+      -- loop iteration in which child k is reaped: periodics are re-armed first, then the child watcher runs,
+      -- then the periodic callbacks (a stopped watcher's pending callback is dropped)
+      let s0 := { d.s with now := t }
+      let (s1, pend) := reify t (s0.tasks.length + 1) s0 []
+      let (s2, ok) := childExitPending s1 k pend
+      let (s3, sps) := runPending s2 pend
+      ({ d with s := s3, lastT := t }, joinWith "," ((if ok then "x" else "nochild") :: sps.map showSpawn))
+    | _, _ => (d, "bad-op")
+  | "H" :: peer :: _hex :: urluid :: tuids => match peer.toNat? with
+    | some peer =>
+      let (st, us) := httpSched d.s peer (if urluid == "-" then none else urluid.toNat?) (tuids.filter (· ≠ "-"))
+      (d, if us.isEmpty then s!"{st}" else s!"{st}:" ++ joinWith "+" (sortStrs us))
+    | none => (d, "bad-op")
   | ["Q"] => (d, showTable d.s)
   | ["L"] => (d, showFiles d.s)
   | ["P", v] => ({ d with s := { d.s with spawnFail := v == "1" } }, "p")
